@@ -128,3 +128,19 @@ package http1
 //@   ghostset after newUpgradeConn: disp = 4
 //@   ghostset after ReadRespBodyStream: handed = true
 //@   top-ensures disp != 1 || handed
+
+// C10 (sequential slice of the timeout clause): the read/write timeout handed to the connection never exceeds
+// what is left of the request timeout, nor the configured per-operation timeout; an exhausted request timeout
+// demands closing. elapsed: the value time.Since returned inside the function.
+//@ ghost var elapsed int scratch
+// assumed: the monotonic clock does not run backwards
+//@ extern time.Since(t) r
+//@   ensures r >= 0
+//@ func updateReqTimeout(reqTimeout, compareTimeout, before) shouldCloseConn, timeout
+//@   props C10
+//@   modifies elapsed
+//@   ghostset after Since#0: elapsed = result
+//@   top-ensures reqTimeout <= 0 ==> !shouldCloseConn && timeout == compareTimeout
+//@   top-ensures reqTimeout > 0 && reqTimeout - elapsed <= 0 ==> shouldCloseConn && timeout == 0
+//@   top-ensures reqTimeout > 0 && reqTimeout - elapsed > 0 ==> !shouldCloseConn && 0 < timeout && timeout <= reqTimeout - elapsed && (compareTimeout > 0 ==> timeout <= compareTimeout) && (timeout == reqTimeout - elapsed || timeout == compareTimeout)
+
